@@ -214,7 +214,7 @@ func runLookupOnce(ci interface{}, s *vkit.Stats, round int) error {
 	addr, err, pv := find(c.Kind, c.Name)
 	if pv != nil {
 		// only the documented "needs ldflags" cause may panic, and only when the table cannot be read
-		if e, ok := pv.(error); ok && strings.Contains(strings.ToLower(e.Error()), "ldflags") && x.mode != "default" {
+		if e, ok := pv.(error); ok && strings.Contains(strings.ToLower(e.Error()), "ldflags") && !strings.HasPrefix(x.mode, "default") {
 			cls("documented-ldflags-panic")
 			return nil
 		}
@@ -227,7 +227,7 @@ func runLookupOnce(ci interface{}, s *vkit.Stats, round int) error {
 			return nil
 		}
 		if err != nil {
-			if present && x.mode == "default" {
+			if present && strings.HasPrefix(x.mode, "default") {
 				return fmt.Errorf("function %q is in the binary (entry %#x) but lookup failed: %v", c.Name, want+x.slide, err)
 			}
 			cls("error-result")
@@ -265,10 +265,10 @@ func runLookupOnce(ci interface{}, s *vkit.Stats, round int) error {
 		return nil
 	}
 	if err != nil {
-		if present && x.mode == "default" {
+		if present && strings.HasPrefix(x.mode, "default") {
 			return fmt.Errorf("variable %q is in .symtab (%#x) but lookup failed: %v", c.Name, want+x.slide, err)
 		}
-		if own, ok := x.own[c.Name]; ok && x.mode == "default" {
+		if own, ok := x.own[c.Name]; ok && strings.HasPrefix(x.mode, "default") {
 			return fmt.Errorf("variable %q lives at %#x but lookup failed: %v", c.Name, own, err)
 		}
 		cls("error-result")
@@ -361,6 +361,22 @@ func TestVerifC10(t *testing.T) {
 	if vkit.Replaying() {
 		p.Main(t, 0)
 		return
+	}
+	// which kind of name the process looks up first is part of the input: VERIF_C10_FIRST=var starts with variables
+	if os.Getenv("VERIF_C10_FIRST") == "var" {
+		fs := vkit.NewStats("C10", unit("variable-lookup-first"))
+		for _, n := range []string{self + "vData", self + "vBss", "no/such.variable"} {
+			c := &lookupCase{Kind: "var", Name: n}
+			fs.Eval(1)
+			if err := p.SafeRun(c, fs); err != nil {
+				fs.Violation(err.Error(), c)
+				t.Fatalf("%v", err)
+			}
+			fs.NonTrivial("v1:" + n)
+			fs.Sample(c)
+		}
+		fs.Class("first-lookup-of-the-process-is-a-variable")
+		fs.Done()
 	}
 	// 1. every function of the binary
 	s := vkit.NewStats("C10", unit("all-functions"))
